@@ -105,6 +105,15 @@ PickB ==
         /\ D' = IF Diffable(A, b, T) THEN Diff(A, b, T).v ELSE <<>>
         /\ phase' = IF Diffable(A, b, T) THEN "pair" ELSE "undiffable"
     /\ UNCHANGED A
+(* parameters with a name in the first namespace: the key of a parameter is its index, so that name cannot travel in a diff *)
+TreeSetP == {Root(NS, <<>>, MapOf({Class(<<"K", "x">>, <<>>, MapOf({Method(<<"m", "x">>, "()V", <<>>, pk)}))})) :
+                pk \in OptMap({Param(0, <<src, n>>, <<>>) : src \in {"", "s", "t"}, n \in {"", "x", "y"}})}
+PickP ==
+    /\ phase = "start"
+    /\ \E a \in TreeSetP, b \in TreeSetP :
+        /\ A' = a /\ B' = b
+        /\ D' = IF Diffable(a, b, T) THEN Diff(a, b, T).v ELSE <<>>
+        /\ phase' = IF Diffable(a, b, T) THEN "pair" ELSE "undiffable"
 CorruptOK == IF Tier = 0 THEN A = B ELSE (A = B \/ SizeKids(B.kids) <= 1 \/ SizeKids(A.kids) <= 1)
 Corrupt ==
     /\ phase = "pair" /\ CorruptOK
@@ -112,7 +121,7 @@ Corrupt ==
     /\ phase' = "corrupt"
     /\ UNCHANGED <<A, B>>
 
-Next == PickTable \/ PickA \/ PickB \/ Corrupt
+Next == PickTable \/ PickA \/ PickB \/ PickP \/ Corrupt
 Spec == Init /\ [][Next]_vars
 
 ---------------------------------------------------------------------------
